@@ -38,6 +38,10 @@ func Decode(packet []byte, options Options) (_ any, _ []byte, ret error) {
 		}()
 	}
 
+	if options.depth == nil {
+		options.depth = new(int)
+	}
+
 	// Use pooled state instead of allocation
 	state := getPooledStateDecode(options)
 	defer putPooledStateDecode(state)
@@ -1152,6 +1156,14 @@ func decodeBool(value *reflect.Value, packet []byte, state *stateDecode) (*refle
 }
 
 func decodeAny(value *reflect.Value, packet []byte, state *stateDecode) (*reflect.Value, []byte, error) {
+	// the counter is set by Decode and shared by all the states of one decoding
+	depth := state.options.depth
+	if *depth >= maxDecodeDepth {
+		return nil, nil, fmt.Errorf("too deep nesting")
+	}
+	*depth++
+	defer func() { *depth-- }()
+
 	dec, p, err := getDecoder(packet, state)
 	if err != nil {
 		return nil, nil, err
